@@ -10,6 +10,8 @@ import (
 	"go/constant"
 	"go/token"
 	"go/types"
+	"math/bits"
+	"sort"
 	"strconv"
 	"strings"
 
@@ -765,6 +767,15 @@ func (ev *Evaluator) instr(env map[ssa.Value]Val, in ssa.Value) (Val, error) {
 			}
 			return y.String()
 		}
+		// a constant string with constant bounds: the substring
+		if cs, ok := x.(Const); ok && cs.V != nil && cs.V.Kind() == constant.String {
+			str := constant.StringVal(cs.V)
+			lo, ok1 := bound(in.Low, 0)
+			hi, ok2 := bound(in.High, int64(len(str)))
+			if ok1 && ok2 && 0 <= lo && lo <= hi && hi <= int64(len(str)) {
+				return Const{constant.MakeString(str[lo:hi])}, nil
+			}
+		}
 		if in.Low == nil && in.High == nil {
 			return Term{Fn: "slice", Args: []Val{x}}, nil
 		}
@@ -1085,6 +1096,98 @@ func (ev *Evaluator) binop(op token.Token, x, y Val, pos token.Pos) (Val, error)
 				}
 			}
 		}
+		// a length shifted by a constant, tested for equality: len(x)+c == k ⇔ len(x) == k−c (a length is non-negative
+		// and below 2^63, so the wrapped sum equals k only there)
+		if (op == token.EQL || op == token.NEQ) && oky && cy.V != nil && cy.V.Kind() == constant.Int {
+			if ax, isA := x.(Affine); isA {
+				if lt, isLen := ax.X.(Term); isLen && lt.Fn == "len" {
+					if k, exact := constant.Int64Val(cy.V); exact && k-ax.C >= 0 && (ax.C >= 0) == (k-ax.C <= k) {
+						return ev.binop(op, ax.X, Const{constant.MakeInt64(k - ax.C)}, pos)
+					}
+				}
+			}
+		}
+		// a window of constant width compared with a constant string: `string(in[3:9]) == ":uuid:"` is the conjunction of
+		// the byte equalities (a width that differs from the constant's length never equals it)
+		if (op == token.EQL || op == token.NEQ) && oky && cy.V != nil && cy.V.Kind() == constant.String {
+			if tx, isT := x.(Term); isT && len(tx.Args) == 1 && strings.HasPrefix(tx.Fn, "slice[") && strings.HasSuffix(tx.Fn, "]") {
+				bounds := strings.SplitN(tx.Fn[len("slice["):len(tx.Fn)-1], ":", 3)
+				if len(bounds) == 2 {
+					lo, err1 := strconv.ParseInt(bounds[0], 10, 64)
+					if bounds[0] == "" {
+						lo, err1 = 0, nil
+					}
+					hi, err2 := strconv.ParseInt(bounds[1], 10, 64)
+					want := constant.StringVal(cy.V)
+					if err1 == nil && err2 == nil && lo >= 0 && hi >= lo && hi-lo <= 64 {
+						all := hi-lo == int64(len(want))
+						for i := int64(0); all && i < hi-lo; i++ {
+							bx, bi := rebaseSlice(tx, Const{constant.MakeInt64(i)})
+							r, err := ev.binop(token.EQL, Elem{Base: bx, Index: bi}, Const{constant.MakeInt64(int64(want[i]))}, pos)
+							if err != nil {
+								return nil, err
+							}
+							c, isC := r.(Const)
+							if !isC || c.V == nil || c.V.Kind() != constant.Bool {
+								return nil, &Undecided{pos, fmt.Sprintf("window comparison %v %s %v", x, op, y)}
+							}
+							all = constant.BoolVal(c.V)
+						}
+						return Const{constant.MakeBool(all == (op == token.EQL))}, nil
+					}
+				}
+			}
+		}
+		// a case fold compared with a constant: `x|K == C`, `x&^K == C` hold for finitely many x (C with any subset of
+		// K's bits cleared resp. set): decided as the disjunction of the equalities x == candidate
+		if (op == token.EQL || op == token.NEQ) && oky && cy.V != nil && cy.V.Kind() == constant.Int {
+			if tx, isT := x.(Term); isT && len(tx.Args) == 2 && (tx.Fn == "|" || tx.Fn == "&^") {
+				operand, kc := tx.Args[0], tx.Args[1]
+				if _, isC := operand.(Const); isC && tx.Fn == "|" {
+					operand, kc = kc, operand
+				}
+				if k, isK := kc.(Const); isK && k.V != nil && k.V.Kind() == constant.Int {
+					if _, opConst := operand.(Const); !opConst {
+						kv, ok1 := constant.Int64Val(k.V)
+						cv, ok2 := constant.Int64Val(cy.V)
+						if ok1 && ok2 && kv > 0 && cv >= 0 && bits.OnesCount64(uint64(kv)) <= 3 {
+							var cands []int64
+							feasible := (tx.Fn == "|" && cv&kv == kv) || (tx.Fn == "&^" && cv&kv == 0)
+							if feasible {
+								// subsets of K's bits
+								for sub := kv; ; sub = (sub - 1) & kv {
+									if tx.Fn == "|" {
+										cands = append(cands, cv&^sub)
+									} else {
+										cands = append(cands, cv|sub)
+									}
+									if sub == 0 {
+										break
+									}
+								}
+							}
+							sort.Slice(cands, func(i, j int) bool { return cands[i] > cands[j] })
+							any := false
+							for _, cand := range cands {
+								r, err := ev.binop(token.EQL, operand, Const{constant.MakeInt64(cand)}, pos)
+								if err != nil {
+									return nil, err
+								}
+								if c, isC := r.(Const); isC && c.V != nil && c.V.Kind() == constant.Bool {
+									if constant.BoolVal(c.V) {
+										any = true
+										break
+									}
+									continue
+								}
+								return nil, &Undecided{pos, fmt.Sprintf("case-fold comparison %v %s %v", x, op, y)}
+							}
+							return Const{constant.MakeBool(any == (op == token.EQL))}, nil
+						}
+					}
+				}
+			}
+		}
 		var ord int
 		var ok bool
 		if oo, isOp := ev.Oracle.(OpOracle); isOp {
@@ -1361,6 +1464,48 @@ func (ev *Evaluator) apply(fn *ssa.Function, args []Val, pos token.Pos) (Val, er
 		}
 		if v, ok := foldPure(key, args); ok {
 			return v, nil
+		}
+		// cmp.Compare on integers or strings: the order of the operands as −1, 0, +1; cmp.Or: the first non-zero one
+		if key == "cmp.Compare" && len(args) == 2 && len(fn.TypeArgs()) == 1 {
+			if b, isB := fn.TypeArgs()[0].Underlying().(*types.Basic); isB && b.Info()&(types.IsInteger|types.IsString) != 0 {
+				lt, err := ev.binop(token.LSS, args[0], args[1], pos)
+				if err != nil {
+					return nil, err
+				}
+				if c, ok := lt.(Const); ok && c.V != nil && c.V.Kind() == constant.Bool {
+					if constant.BoolVal(c.V) {
+						return Const{constant.MakeInt64(-1)}, nil
+					}
+					gt, err := ev.binop(token.GTR, args[0], args[1], pos)
+					if err != nil {
+						return nil, err
+					}
+					if c, ok := gt.(Const); ok && c.V != nil && c.V.Kind() == constant.Bool {
+						if constant.BoolVal(c.V) {
+							return Const{constant.MakeInt64(1)}, nil
+						}
+						return Const{constant.MakeInt64(0)}, nil
+					}
+				}
+			}
+		}
+		if key == "cmp.Or" && len(args) == 1 {
+			if sv, ok := args[0].(*SliceV); ok {
+				decided := true
+				for _, c := range sv.Elems {
+					k, isC := c.V.(Const)
+					if !isC || k.V == nil || k.V.Kind() != constant.Int {
+						decided = false
+						break
+					}
+					if constant.Sign(k.V) != 0 {
+						return k, nil
+					}
+				}
+				if decided {
+					return Const{constant.MakeInt64(0)}, nil
+				}
+			}
 		}
 		// the 128-bit product with the constant 1 (or 0) is known: high word 0, low word the other factor (0)
 		if key == "math/bits.Mul64" && len(args) == 2 {
